@@ -46,6 +46,9 @@ def cases(tier):
                 pair('statement differs (promise absent vs 2^n - 1)', dict(tb, promises=[None] * m), dict(tb, promises=[top] + [None] * (m - 1)), False)
                 pair('statement differs (promise 1 vs 1 + 2^(n-1))', dict(tb, promises=['1'] + [None] * (m - 1)), dict(tb, promises=[str(1 + (1 << (n - 1)))] + [None] * (m - 1)), False)
                 pair('statement differs (promise 2^n - 2 vs 2^n - 1)', dict(tb, promises=[str((1 << n) - 2)] + [None] * (m - 1)), dict(tb, promises=[top] + [None] * (m - 1)), False)
+            # the value generator reassigned through its public field without refreshing the cached encoding; value 0, so the commitments agree
+            zv = dict(base, values=['0'] * m, promises=[None] * m, sym_bits=False)
+            pair('statement differs (value generator reassigned, cached encoding stale; value 0)', zv, dict(zv, h_point_only=True), False)
             # a witness object whose openings were written through the public field after construction is a witness like any other
             pair('identical runs, second witness updated in place', base, dict(base, witness_in_place=True), True)
             for sj in (range(m) if x >= 2 else ()):
